@@ -331,12 +331,9 @@ def check_conflict_graph_pinned(chk, fi: FuncInfo) -> None:
     # the If whose body adds to graph
     adds = [c for c in astq.calls(fi.node, "add") if isinstance(c.func.value, ast.Subscript) and astq.dotted(c.func.value.value) == "graph"]
     if len(adds) < 1:
-        chk.violation(
-            "conflict-graph",
-            fi.where,
-            "no insertion into the conflict graph: crossing stems are never recorded as adjacent",
-            K(fi, "graph-edges"),
-        )
+        # the graph may be built elsewhere or in another way; what a missing / wrong graph does to the results is decided by the
+        # evaluated rules of the consumers (enumeration-fact, milp-adjacency, fcfs-first-fit) - here the idiom is just not readable
+        chk.error("conflict-graph", fi.where, "no `graph[i].add(j)` insertion found: construction of the conflict graph not recognised")
         return
     fm = FlowMap(fi.node)
     tests = []
